@@ -299,7 +299,9 @@ func init() {
 			o := args[0].T
 			u.eng.declareFun("enc_mode_of", []Sort{o.Sort}, SAny)
 			u.eng.declareFun("enc_opts_valid", []Sort{o.Sort}, SBool)
-			ok := App(SBool, "enc_opts_valid", o)
+			ok := Or(u.optsInRange(x.Call.Args[0].Type(), o), App(SBool, "enc_opts_valid", o))
+			u.eng.declareFun("enc_opts_of", []Sort{SAny}, o.Sort)
+			u.assume(True, Eq(App(o.Sort, "enc_opts_of", App(SAny, "enc_mode_of", o)), o))
 			id := u.newObj(st)
 			e := App(SAny, "A_other", IntLit(tidWrapError), id)
 			mode := App(SAny, "enc_mode_of", o)
@@ -311,7 +313,9 @@ func init() {
 			o := args[0].T
 			u.eng.declareFun("dec_mode_of", []Sort{o.Sort}, SAny)
 			u.eng.declareFun("dec_opts_valid", []Sort{o.Sort}, SBool)
-			ok := App(SBool, "dec_opts_valid", o)
+			ok := Or(u.optsInRange(x.Call.Args[0].Type(), o), App(SBool, "dec_opts_valid", o))
+			u.eng.declareFun("dec_opts_of", []Sort{SAny}, o.Sort)
+			u.assume(True, Eq(App(o.Sort, "dec_opts_of", App(SAny, "dec_mode_of", o)), o))
 			id := u.newObj(st)
 			e := App(SAny, "A_other", IntLit(tidWrapError), id)
 			mode := App(SAny, "dec_mode_of", o)
@@ -441,4 +445,50 @@ func (u *Unit) rsaPubAbs(st *State, p Term) Term {
 	// PublicKey{N *big.Int; E int}
 	HP, HI, B := u.comp(st, hcomp(SAddr)), u.comp(st, hcomp(SInt)), u.comp(st, "BIG")
 	return App("RSAPub", "mk-rsapub", Select(B, Select(HP, FieldAddrT(p, 0))), Select(HI, FieldAddrT(p, 1)))
+}
+
+// optsInRange: a sufficient condition (read from fxamacker/cbor v2.5.0 encode.go / decode.go) for EncMode() / DecMode()
+// to accept an options struct: every mode field is one of its first two enumerators (Sort: three, NaNConvert: four,
+// Time: five, TimeTag: three for decoding), size limits are left at 0 (defaults), no default map type is set, and tags are
+// not forbidden together with a required time tag.
+func (u *Unit) optsInRange(t types.Type, o Term) Term {
+	st, ok := t.Underlying().(*types.Struct)
+	if !ok {
+		return False
+	}
+	si := u.eng.reg.Struct(t)
+	var cs []Term
+	var tagsMd, timeTag Term
+	for i := 0; i < st.NumFields(); i++ {
+		f := st.Field(i)
+		v := App(si.Fields[i].Sort, si.Fields[i].Sel, o)
+		hi := int64(1)
+		switch f.Name() {
+		case "Sort":
+			hi = 2
+		case "NaNConvert":
+			hi = 3
+		case "Time":
+			hi = 4
+		case "TimeTag":
+			hi = 1
+			timeTag = v
+		case "TagsMd":
+			tagsMd = v
+		case "MaxNestedLevels", "MaxArrayElements", "MaxMapPairs":
+			hi = 0
+		}
+		switch si.Fields[i].Sort {
+		case SInt:
+			cs = append(cs, Le(IntLit(0), v), Le(v, IntLit(hi)))
+		case SAny:
+			cs = append(cs, Eq(v, AnyNil))
+		default:
+			return False
+		}
+	}
+	if tagsMd.S != "" && timeTag.S != "" {
+		cs = append(cs, Not(And(Eq(tagsMd, IntLit(1)), Eq(timeTag, IntLit(1)))))
+	}
+	return And(cs...)
 }
